@@ -19,6 +19,9 @@
 //!   `N <opts> <hex>`  parse one DIMACS input -> `OK <dump>` | `DIAG` | `PANIC ..`
 //!        (compared with the extracted model of coq/IO/DimacsParse.v when it is a `p cnf` file)
 //!   `M <opts> <family> <hex seed> <rseed>`  mutations of one DIMACS seed, one `N` line each
+//!   `S <opts> <n> [chain|vo|sat]`  input of processing depth <n> (AIGER gate chain, DIMACS order tree,
+//!        SAT formula), parsed in a thread with the default stack size -> `OK` | `DIAG` (a stack
+//!        overflow kills the process)
 //!   `V <inputs> <d1> <d2>`  binary AIGER file with one AND gate whose deltas are
 //!        d1, d2 (7-bit varint codec) -> `<hex of the two varints> <in1> <in2>` | `.. DIAG`
 //!
@@ -415,6 +418,34 @@ fn run_pair(line: &str) -> String {
         (None, Some(_)) => "ERR1".into(),
         (Some(_), None) => "ERR2".into(),
         (None, None) => "ERRBOTH".into(),
+    }
+}
+
+/// `S <opts> <n> [chain|vo|sat]`: inputs whose processing depth is <n>, parsed in a thread with the
+/// default stack size.  chain: ASCII AIGER, gate k = AND(gate k+1, true), the last one AND(true, true)
+/// (valid and acyclic; depth of `Circuit::find_cycle`); vo: DIMACS with the order tree `[[[..1..]]]`;
+/// sat: DIMACS SAT formula `*(*(*(..1..)))`.
+fn run_stack_probe(line: &str) -> String {
+    let t: Vec<&str> = line.split_whitespace().collect();
+    let (mask, n): (u64, usize) = (t[1].parse().unwrap(), t[2].parse().unwrap());
+    let kind = t.get(3).copied().unwrap_or("chain");
+    let (fmt, s) = match kind {
+        "vo" => ("dimacs", format!("c vo {}1{}\np cnf 1 0\n", "[".repeat(n), "]".repeat(n))),
+        "sat" => ("dimacs", format!("p sat 1\n{}1{}\n", "*(".repeat(n), ")".repeat(n))),
+        _ => {
+            let mut s = format!("aag {n} 0 0 1 {n}\n2\n");
+            for k in 0..n {
+                let r = if k + 1 < n { 2 * (k + 2) } else { 1 };
+                writeln!(s, "{} {r} 1", 2 * (k + 1)).unwrap();
+            }
+            ("aiger", s)
+        }
+    };
+    let h = std::thread::spawn(move || parse_direct(fmt, &opts(mask), s.as_bytes()).is_some());
+    match h.join() {
+        Ok(true) => "OK".into(),
+        Ok(false) => "DIAG".into(),
+        Err(e) => format!("PANIC {}", panic_msg(e)),
     }
 }
 
@@ -1178,6 +1209,10 @@ fn gen_parse(tier: &str, rng: &mut Rng, em: &mut Emit) {
     }
     // allocation sizes come from the header: one probe, run in a process of its own
     em.case("oom", &[format!("P dimacs 4 direct {}", hex(b"p sat 100000000000000\n(1)\n"))]);
+    // recursion depth proportional to the input: one probe, run in a process of its own
+    em.case("stack", &["S 4 100000".to_string()]);
+    em.case("stack", &["S 5 100000 vo".to_string()]);
+    em.case("stack", &["S 4 100000 sat".to_string()]);
     // equivalent aag / aig pairs: the pairs of the unit tests + random ones
     let ai = aiger_seeds();
     for (x, y) in [(0usize, 1usize), (2, 3), (5, 6), (7, 8), (9, 10), (11, 12), (15, 16), (19, 20), (21, 22)] {
@@ -1295,6 +1330,10 @@ fn main() {
                         }
                         "V" => {
                             let r = run_varint(line);
+                            out(format!("{line} -> {r}"));
+                        }
+                        "S" => {
+                            let r = run_stack_probe(line);
                             out(format!("{line} -> {r}"));
                         }
                         "A" => {
